@@ -652,28 +652,47 @@ def run(ctx):
             "a cycle found by the search is missing from (or collapsed in) the printed list", ctx.func("Frontend.loopcarried_dependencies").where())
 
 
-def lcd_cell_presence(ctx, rule):
+def lcd_cell_presence(ctx, rule, kinds=("LCD", "CP")):
     """The LCD cell of a line is filled iff the line is a member of the selected cycle: the per-line value handed to the
     cell formatter is `<members>.get(line)` - None for non-members, the edge latency (possibly 0.0: eliminated moves)
     for members - so the formatter must test `is None`, not truthiness."""
     cv = ctx.func("Frontend.combined_view")
     lc = ctx.func("Frontend._get_lcd_cp_ports")
     call = C.calls_to(cv.node, "_get_lcd_cp_ports")
-    if not call or len(call[0].args) < 3 or len(lc.params()) < 4:
-        ctx.unknown(rule, "LCD cell presence", cv.where(), "call of _get_lcd_cp_ports(line, cp, lcd value) not found")
+    if not call:
+        ctx.unknown(rule, "LCD cell presence", cv.where(), "call of _get_lcd_cp_ports(...) not found")
         return
-    arg = call[0].args[2]
-    via_get = isinstance(arg, ast.Call) and isinstance(arg.func, ast.Attribute) and arg.func.attr == "get" and len(arg.args) == 1
-    p = lc.params()[3]
-    tests = C.presence_tests(lc.node, p)
-    bad = [n for n, v in tests if v is False]
-    ctx.judge(bool(tests) and not bad and all(v is True for _, v in tests), via_get and bool(tests) and all(v is not None for _, v in tests),
-              rule, "LCD cell filled for every member of the selected cycle (presence by `is None`)",
-              lc.where(bad[0]) if bad else lc.where(),
-              "`%s` receives `%s` - None for lines outside the selected cycle, the edge latency for members - and tests it by "
-              "truthiness: a member whose latency is 0.0 (an eliminated register move such as zen2 `vmovapd %%ymm4, %%ymm0`) is "
-              "treated as a non-member, its LCD cell stays blank and the column no longer marks the cycle that the summary "
-              "reports" % (p, U(arg)), lc.qname, "lcd cell presence test")
+    prm = [p_ for p_ in lc.params() if p_ not in ("self", "cls")]
+    found_lcd = False
+    for i_, arg in enumerate(call[0].args):
+        if i_ >= len(prm):
+            break
+        via_get = isinstance(arg, ast.Call) and isinstance(arg.func, ast.Attribute) and arg.func.attr == "get" and len(arg.args) == 1
+        if not via_get:
+            continue
+        # which column: the map the value is looked up in
+        kind = None
+        if isinstance(arg.func.value, ast.Name):
+            ds = [a_ for a_ in C.assigns_to(cv.node, arg.func.value.id) if isinstance(a_, ast.Assign) and isinstance(a_.value, ast.DictComp)]
+            for d_ in ds:
+                t_ = U(d_.value)
+                kind = kind or ("LCD" if "'dependencies'" in t_ or '"dependencies"' in t_ else "CP" if "latency_cp" in t_ else None)
+        found_lcd = found_lcd or kind == "LCD"
+        if kind is None or kind not in kinds:
+            continue
+        p = prm[i_]
+        tests = C.presence_tests(lc.node, p)
+        bad = [n for n, v in tests if v is False]
+        what = "selected cycle" if kind == "LCD" else "critical path"
+        ctx.judge(bool(tests) and not bad and all(v is True for _, v in tests), bool(tests) and all(v is not None for _, v in tests),
+                  rule, "%s cell filled for every member of the %s (presence by `is None`)" % (kind, what),
+                  lc.where(bad[0]) if bad else lc.where(),
+                  "`%s` receives `%s` - None for lines outside the %s, the latency for members - and tests it by "
+                  "truthiness: a member whose latency is 0.0 (an eliminated register move such as zen2 `vmovapd %%ymm4, %%ymm0`) is "
+                  "treated as a non-member, its %s cell stays blank and the column no longer marks the %s that the summary "
+                  "reports" % (p, U(arg), what, kind, what), lc.qname, "%s cell presence test" % kind.lower())
+    if not found_lcd and "LCD" in kinds:
+        ctx.unknown(rule, "LCD cell presence", cv.where(), "no argument of _get_lcd_cp_ports is looked up in the member map of the selected cycle")
 
 
 def parent_is_body(node, loop):
